@@ -258,7 +258,7 @@ def gen_ers_world(rng, stats=None, force=None):
     objs = list(nodes)
     canary_nodes = []
     if role_canary:
-        k = rng.choice([0, 1, 1, 2, 3])
+        k = force.get("canary_k", rng.choice([0, 1, 1, 2, 3]))
         canary_nodes = rng.sample(node_names, min(k, len(node_names)))
         if rng.random() < 0.15:
             canary_nodes.append("n-gone")
